@@ -35,7 +35,7 @@ COMPONENTS = {
     "real": ["eolib.packet.PacketSequencer", "eolib.packet.sequence_start.*", "EoWriter/EoReader for every message"],
     "stub_or_harness": ["SimNet (virtual-time FIFO network)", "client/server node scripts", "SimRandom"],
 }
-PROBES = ["sequencer_looked_at", "earlier_start_object_installed_again", "sequencer_subclass_with_own_constructor", "start_constructed_ahead_of_hand_over", "start_object_changed_in_place", "user_start_derived_from_library_class", "update_at_counter_9", "update_at_counter_0", "back_to_back_updates", "update_with_packets_in_flight",
+PROBES = ["history_continued_on_a_copy", "sequencer_looked_at", "earlier_start_object_installed_again", "sequencer_subclass_with_own_constructor", "start_constructed_ahead_of_hand_over", "start_object_changed_in_place", "user_start_derived_from_library_class", "update_at_counter_9", "update_at_counter_0", "back_to_back_updates", "update_with_packets_in_flight",
           "three_wraparounds_between_updates", "reconnect", "sequence_sent_as_short", "two_pings_outstanding",
           "request_from_another_thread"]
 FAULT_KINDS = ["start_in_force_broken_at_update", "latency_jitter", "start_update_mid_burst", "reconnect", "start_unreadable_during_request", "update_during_request"]
@@ -82,6 +82,10 @@ def generate(streams, tier):
         if rng.random() < 0.05:
             # the sequencer is looked at the way Python programs look at objects (logging, debugging, assertions)
             local.append(["look", rng.choice(["repr", "str", "format", "dir", "vars", "bool", "eq", "hash", "copy"])])
+            continue
+        if rng.random() < 0.03:
+            # the session object is duplicated (a snapshot, a hand-over to another owner) and the history goes on with the copy
+            local.append(["continue_on_copy"])
             continue
         if rng.random() < 0.03:
             # the start in force has become unreadable for good; the application repairs the session with a new start
@@ -416,6 +420,14 @@ def run_local(plan, s, res, tr):
             prepared.append(ProbeStart(op[1]))       # constructing a start changes nothing that is in force
             res.count("probe.start_constructed_ahead_of_hand_over")
             tr.ev("local", "prepare", op[1])
+        elif op[0] == "continue_on_copy":
+            import copy as _copy
+            try:
+                seq = _copy.copy(seq)           # shallow: the start object in force is shared, the counter travels along
+                res.count("probe.history_continued_on_a_copy")
+            except Exception:  # noqa  (whether a sequencer can be copied is not the property)
+                pass
+            tr.ev("local", "copy")
         elif op[0] == "look":
             import copy as _copy
             try:
